@@ -78,7 +78,12 @@ def multi_event_command(r, v):
     choices = [("new-task{state,claim}", ["--json", "new", "task"], json.dumps({"title": "n", "state": "doing", "claim": "c1"}).encode()),
                ("plan", ["--json", "plan"], json.dumps({"title": "P", "tasks": [{"title": "a"}, {"title": "b", "after": ["a"]}, {"title": "c", "after": ["a", "b"]}]}).encode()),
                ("compact", ["--json", "compact"], None),
-               ("new-task{state}", ["--json", "--agent", "me", "new", "task"], json.dumps({"title": "m", "state": "blocked"}).encode())]
+               ("new-task{state}", ["--json", "--agent", "me", "new", "task"], json.dumps({"title": "m", "state": "blocked"}).encode()),
+               # the same requests through the other two input channels (flags only; --body-stdin): whichever code path serves them, one command is one batch
+               ("new-task flags{state,claim}", ["--json", "--agent", "c4", "new", "task", "--title", "nf", "--state", "doing", "--claim", "c4"], None),
+               ("new-task flags{claim}", ["--json", "--agent", "c5", "new", "task", "--title", "nf2", "--claim", "c5"], None),
+               ("new-task body-stdin{claim}", ["--json", "--agent", "c6", "new", "task", "--body-stdin", "--title", "nb", "--claim", "c6"], b"body text\n"),
+               ("new-task body-stdin{state}", ["--json", "--agent", "c7", "new", "task", "--body-stdin", "--title", "nb2", "--state", "blocked"], b"body text\n")]
     if todo:
         t = r.pick(todo)
         big_body = ("a fairly long paragraph of result notes %d. " % r.n(1000)) * (1800 + r.n(1500))     # 80–150 KB: more than one 64 KiB buffer
@@ -87,7 +92,9 @@ def multi_event_command(r, v):
         choices += [("claim-oldest", ["--json", "--agent", "k1", "claim"], None),
                     ("claim-id", ["--json", "--agent", "k2", "claim", t], None),
                     ("set{title,body,state}", ["--json", "set", t], json.dumps({"title": "T2", "body": "B2", "state": "done"}).encode()),
-                    ("set{claim}", ["--json", "set", t], json.dumps({"claim": "k3"}).encode())]
+                    ("set{claim}", ["--json", "set", t], json.dumps({"claim": "k3"}).encode()),
+                    ("set flags{title,state,claim}", ["--json", "--agent", "k4", "set", t, "--title", "Tf", "--state", "doing", "--claim", "k4"], None),
+                    ("set body-stdin{title,state}", ["--json", "set", t, "--body-stdin", "--title", "Tb", "--state", "done"], b"new body\n")]
         if len(todo) >= 3:
             choices.append(("sequence-chain", ["--json", "sequence", todo[0], todo[1], todo[2]], None))
     if len(closed) >= 2 or (closed and v.epics):
